@@ -242,12 +242,16 @@ def isGtGte : Option Cmp → Bool
   | some .gte => true
   | _ => false
 
-/-- one iteration of the `for (a, av), (b, bv) in permutations(...)` loop; `none` = fall through -/
-def cmpStep (or_ : Bool) (left right : E) (ka : Option Cmp) (a : E) (av : Int) (kb : Option Cmp) (bv : Int) : Option E :=
+/-- one iteration of the `for (a, av), (b, bv) in permutations(...)` loop; `none` = fall through.
+    `tie = true` is the code as it is now (a8389e4): on equal constants with different strictness AND keeps the strict
+    comparison and OR the inclusive one; `tie = false` is the earlier behaviour (first operand wins), kept for the witness. -/
+def cmpStep (tie : Bool) (or_ : Bool) (left right : E) (ka : Option Cmp) (a : E) (av : Int) (kb : Option Cmp) (b : E) (bv : Int) : Option E :=
   if isLtLte ka && isLtLte kb then
-    some (if (if or_ then decide (av > bv) else decide (av ≤ bv)) then left else right)
+    some (if tie && decide (av = bv) && ka != kb then (if (ka == some .lt) != or_ then a else b)
+          else if (if or_ then decide (av > bv) else decide (av ≤ bv)) then left else right)
   else if isGtGte ka && isGtGte kb then
-    some (if (if or_ then decide (av < bv) else decide (av ≥ bv)) then left else right)
+    some (if tie && decide (av = bv) && ka != kb then (if (ka == some .gt) != or_ then a else b)
+          else if (if or_ then decide (av < bv) else decide (av ≥ bv)) then left else right)
   else if or_ then Option.none
   else if ka = some .lt && isGtGte kb then
     (if av ≤ bv then some (.bool false) else Option.none)
@@ -264,11 +268,11 @@ def cmpStep (or_ : Bool) (left right : E) (ka : Option Cmp) (a : E) (av : Int) (
   else Option.none
 
 /-- the decision phase: both permutations of the loop -/
-def cmpDecide (or_ : Bool) (left right : E) (kl : Option Cmp) (lv : Int) (kr : Option Cmp) (rv : Int) : PairRes :=
-  match cmpStep or_ left right kl left lv kr rv with
+def cmpDecide (tie : Bool) (or_ : Bool) (left right : E) (kl : Option Cmp) (lv : Int) (kr : Option Cmp) (rv : Int) : PairRes :=
+  match cmpStep tie or_ left right kl left lv kr right rv with
   | some x => .res x
   | Option.none =>
-    match cmpStep or_ left right kr right rv kl lv with
+    match cmpStep tie or_ left right kr right rv kl left lv with
     | some x => .res x
     | Option.none => .none
 
@@ -283,7 +287,7 @@ def cmpPair (or_ : Bool) (left right : E) : PairRes :=
             ([rl, rr].filter (fun m => !columns.contains m)).head? with
       | some l, some r =>
         match numVal? l, numVal? r with
-        | some lv, some rv => cmpDecide or_ left right kl lv kr rv
+        | some lv, some rv => cmpDecide true or_ left right kl lv kr rv
         | _, _ => .none
       | _, _ => .same
   | _, _ => .none
@@ -422,11 +426,16 @@ def isNonnullConstant : E → Bool
   | .bool _ => true
   | _ => false
 
-/-- split the COALESCE tail at the first constant argument: (prefix, that constant) -/
-def splitAtConst : E → Option (E × E)
+/-- may this argument end the COALESCE?  `skipNull = true` is the code as it is now (e0979fa): a constant that is not
+    the NULL literal (nor `-NULL`); `skipNull = false` is the earlier `_is_constant(arg)`, kept for the witness -/
+def endsCoalesce (skipNull : Bool) (h : E) : Bool :=
+  isConstant h && !(skipNull && (isNullE h || (match h with | .neg x => isNullE x | _ => false)))
+
+/-- split the COALESCE tail at the first argument that ends it: (prefix, that constant) -/
+def splitAtConst (skipNull : Bool) : E → Option (E × E)
   | .cons h t =>
-    if isConstant h then some (.nil, h)
-    else match splitAtConst t with
+    if endsCoalesce skipNull h then some (.nil, h)
+    else match splitAtConst skipNull t with
       | some (pre, c) => some (.cons h pre, c)
       | none => none
   | _ => none
@@ -436,9 +445,9 @@ def mkCmpLike (k : Option Cmp) (a b : E) : E :=
   | some op => .cmp op a b
   | none => .is a b
 
-def coalesceRewrite (k : Option Cmp) (coalesceLeft : Bool) (first rest other : E) : Option E :=
+def coalesceRewrite (skipNull : Bool) (k : Option Cmp) (coalesceLeft : Bool) (first rest other : E) : Option E :=
   if !isConstant other then none else
-  match splitAtConst rest with
+  match splitAtConst skipNull rest with
   | none => none
   | some (pre, c) =>
     let truncated := E.coalesce (.cons first pre)
@@ -456,10 +465,10 @@ def simplifyCoalesce (fl : Flags) (e : E) : E :=
     match cmpParts e with
     | some (k, l, r) =>
       match l with
-      | .coalesce (.cons first rest) => (coalesceRewrite k true first rest r).getD e
+      | .coalesce (.cons first rest) => (coalesceRewrite true k true first rest r).getD e
       | _ =>
         match r with
-        | .coalesce (.cons first rest) => (coalesceRewrite k false first rest l).getD e
+        | .coalesce (.cons first rest) => (coalesceRewrite true k false first rest l).getD e
         | _ => e
     | none => e
 
